@@ -190,7 +190,9 @@ func c10Doc(c *explore.Ctx, s *explore.SubStats, d kitDoc) {
 			regReset()
 			for _, r := range c18Standard {
 				if which == "" || r.Name == which {
-					validator.ReplaceRule(r.Name, r.RuleFunc)
+					if !replaceRuleBounded(r.Name, r.RuleFunc) {
+						break
+					}
 				}
 			}
 			after := run()
